@@ -9,10 +9,11 @@ import (
 // Every run exercises one cell of {OpenSent, OpenConfirm, Established} x
 // {OPEN, UPDATE, NOTIFICATION, KEEPALIVE, FIN, RST} x {inbound, outbound}; the
 // stimulus is injected at a quiescent point, the reaction is judged at the
-// next quiescent point (DESIGN 3.2, 4 C09).
+// next quiescent point (DESIGN 3.2, 4 C09). Half of the FIN/RST runs end the
+// stream inside a message (a truncated frame precedes the close).
 func init() {
 	register(&Property{ID: "C09", Run: runC09,
-		Rule: "one (state, stimulus, direction) cell per run, drawn from the tape, with random NOTIFICATION contents, TCP segmentation and goroutine schedule; a run is non-trivial when the connection really reached the target state and the stimulus was delivered; distinct = distinct (cell, stimulus bytes, reaction frames, callback counts)"})
+		Rule: "one (state, stimulus, direction) cell per run, drawn from the tape, with random NOTIFICATION contents, FIN/RST at a message boundary or inside a truncated message, TCP segmentation and goroutine schedule; a run is non-trivial when the connection really reached the target state and the stimulus was delivered; distinct = distinct (cell, stimulus bytes, reaction frames, callback counts)"})
 }
 
 var c09Stims = []string{"OPEN", "UPDATE", "NOTIFICATION", "KEEPALIVE", "FIN", "RST"}
@@ -69,6 +70,35 @@ func runC09(w *World) {
 		sent = MkFrame(MsgNotification, body)
 	case 3:
 		sent = KeepaliveFrame()
+	}
+	partial := false
+	if stim >= 4 && w.Chance(1, 2, "partial") {
+		// the stream ends inside a message: a prefix of a well-formed frame with a
+		// non-empty body (cut inside the header, right behind it or inside the body)
+		// is not a message, so the close that follows is still a plain TCP close
+		var fr []byte
+		switch w.Draw(3, "partialkind") {
+		case 0:
+			fr = p.Speaker.OpenFrame()
+		case 1:
+			fr = MkFrame(MsgUpdate, w.RandBytes(w.Range(1, 60, "pupdlen"), "pupd"))
+		default:
+			fr = MkFrame(MsgNotification, append([]byte{byte(1 + w.Draw(6, "pcode")), byte(w.Draw(12, "psub"))}, w.RandBytes(w.Range(0, 30, "pdatalen"), "pdata")...))
+		}
+		cut := w.Range(1, len(fr)-1, "cut")
+		if len(fr) > 20 && w.Chance(1, 2, "cutbody") {
+			cut = w.Range(19, len(fr)-1, "cutb")
+		}
+		sent = fr[:cut]
+		partial = true
+		w.Probe("truncated-message-before-" + c09Stims[stim])
+		if cut > 19 {
+			w.Probe("stream-ends-inside-body")
+		}
+		c.SendSeg(sent)
+		if w.Chance(1, 2, "partialquiesce") {
+			w.Quiesce()
+		}
 	}
 	switch stim {
 	case 4:
@@ -154,6 +184,10 @@ func runC09(w *World) {
 		}
 		if !c.LocalClosed() {
 			w.Violate(sig("not-closed"), "connection not closed by corebgp after %s", c09Stims[stim])
+			return
+		}
+		if partial && p.Plug.NUpd != nupdBefore {
+			w.Violate(sig("truncated-message-delivered"), "the stream ended inside a message (%d of its bytes sent) and the UPDATE handler ran (%d -> %d calls)", len(sent), nupdBefore, p.Plug.NUpd)
 			return
 		}
 	}
